@@ -9,8 +9,9 @@ import (
 
 // COp is one step of a transaction body.
 type COp struct {
-	K    string // sel | ins | at | del | obs
-	Row  int    // index into the rows that were live when the actors started (at, del)
+	K    string // sel | ins | at | del | ink | ups | dlk | qk
+	Key  string
+	Row  int // index into the rows that were live when the actors started (at, del)
 	Ws   []W
 	Fail bool
 }
@@ -42,6 +43,7 @@ type ConcProfile struct {
 	PMerge    float64
 	PSel      float64
 	PMidDump  float64 // the scheduler dumps the primary between two steps
+	Keyed     bool    // rows are created through InsertKey / UpsertKey
 	Fine      bool    // park at commit.drawn as well
 	Schedules int     // schedules explored per program set
 	Mode      string  // random | dfs
@@ -79,6 +81,9 @@ func (g *concGen) writes(n int) []W {
 	var ws []W
 	for i := 0; i < n; i++ {
 		d := g.p.Cols[g.rnd.Intn(len(g.p.Cols))]
+		if d.Kind == "key" {
+			continue
+		}
 		k := "put"
 		if d.Merge != "" && d.Merge != "affine" && (d.Kind == "int" || d.Kind == "str") && g.rnd.Float64() < g.p.PMerge {
 			k = "mrg"
@@ -101,6 +106,22 @@ func (g *concGen) program(nrows int) []CTxn {
 		n := 1 + g.rnd.Intn(g.p.MaxBody)
 		for i := 0; i < n; i++ {
 			r := g.rnd.Float64()
+			if g.p.Keyed {
+				key := []string{"k1", "k2", "k3"}[g.rnd.Intn(3)]
+				switch {
+				case r < 0.45:
+					tx.Ops = append(tx.Ops, COp{K: "ups", Key: key, Ws: g.writes(g.rnd.Intn(2))})
+				case r < 0.65:
+					tx.Ops = append(tx.Ops, COp{K: "ink", Key: key, Ws: g.writes(g.rnd.Intn(2)), Fail: g.rnd.Float64() < g.p.PFailIns})
+				case r < 0.8:
+					tx.Ops = append(tx.Ops, COp{K: "dlk", Key: key})
+				case r < 0.9:
+					tx.Ops = append(tx.Ops, COp{K: "qk", Key: key, Ws: g.writes(g.rnd.Intn(2))})
+				case nrows > 0:
+					tx.Ops = append(tx.Ops, COp{K: "del", Row: g.rnd.Intn(nrows)})
+				}
+				continue
+			}
 			switch {
 			case r < g.p.PInsert:
 				tx.Ops = append(tx.Ops, COp{K: "ins", Ws: g.writes(g.rnd.Intn(3)), Fail: g.rnd.Float64() < g.p.PFailIns})
@@ -161,7 +182,18 @@ func runConcOnce(p ConcProfile, seed int64, progs [][]CTxn, choose chooser, midD
 		P.BulkDelete(16384-uint32(p.InitRows/2)-1, 16384+uint32(p.InitRows/2))
 	}
 	g := &concGen{p: p, rnd: prng}
+	if p.Keyed {
+		P.Keys = []string{"k1", "k2", "k3"}
+		if R != nil {
+			R.Keys = P.Keys
+		}
+	}
 	for i := 0; i < p.InitRows; i++ {
+		if p.Keyed {
+			key := P.Keys[i%len(P.Keys)]
+			P.Txn("m", func(x *Tx) error { x.UpsertKey(key, g.writes(len(p.Cols))); return nil })
+			continue
+		}
 		P.Txn("m", func(x *Tx) error { x.Insert(g.writes(len(p.Cols)), false); return nil })
 	}
 	all := P.Dump(1)
@@ -193,6 +225,14 @@ func runConcOnce(p ConcProfile, seed int64, progs [][]CTxn, choose chooser, midD
 							if op.Row < len(rows) {
 								x.Delete(rows[op.Row])
 							}
+						case "ups":
+							x.UpsertKey(op.Key, op.Ws)
+						case "ink":
+							x.InsertKey(op.Key, op.Ws, op.Fail)
+						case "dlk":
+							x.DeleteKey(op.Key)
+						case "qk":
+							x.QueryKey(op.Key, op.Ws, 0)
 						}
 					}
 					s.Yield("api")
@@ -327,6 +367,15 @@ func ConcProfileFor(name string, seed int64) ConcProfile {
 		p.Writers = 2 + r.Intn(2)
 		p.Txns = 2
 		p.Prologue = []string{"block1", "three"}[r.Intn(2)]
+	case "c12": // concurrent upserts / inserts / deletes of the same keys, parked between lookup and insert
+		p.Cols = []ColDesc{{"k", "key", "", "key"}, {"a", "int", "add", numRepr()}}
+		p.Keyed = true
+		p.InitRows = r.Intn(3)
+		p.Prologue = ""
+		p.Writers = 2 + r.Intn(2)
+		p.Txns = 1 + r.Intn(2)
+		p.PRollback, p.PFailIns = 0.1, 0.1
+		p.Schedules = 12
 	case "c02": // atomicity under concurrency: observers in the middle of other transactions
 		p.Cols = []ColDesc{{"a", "int", "add", numRepr()}, {"b", "bool", "", "bool"}}
 		p.Idx = []IdxDesc{{"on", "b", "true", 0}}
